@@ -32,5 +32,11 @@ SPEC = {
 }
 
 MUTATIONS = """
-(filled in after the dry-runs)
+Dry-runs on a scratch copy (VERIF_REPO=/var/tmp/mC16, ./check C18 quick), all compile:
+ M1  builtins.go lenFunc rejects pyFrozenList            application "len" differs -> class frozen-value-behaves-differently-unexplained
+ M2  builtins.go asStringList no longer unwraps          application "join" differs -> unexplained; table row of join changes (C18_table_today)
+ M3  objects.go  list + : pyFrozenList operand branch removed   application "add-left" differs -> unexplained
+ M4  builtins.go enumerate: locals renamed, assertion split   GREEN (harmless; the extractor records asserted types, not names)
+ M5  builtins.go any() unwraps pyFrozenList (a fix)      RED as designed: C18_table_today no longer checks; C18_builtins_lifted covers `any` from then on
+(results in the batch log; see final report)
 """
